@@ -15,6 +15,11 @@ def run(tier, only=None):
 
     progs = f01.all_programs(tier)
     progs = f01.select(progs, "quick", seed() + 1, 120 if tier == "quick" else 2500)
+    # rule pairs that undo each other live around joins: filters over merges in every legal / illegal placement
+    from families import f03
+
+    joins = [p for p in f03.programs(tier) if ".merge(" in p.text]
+    progs += f01.select(joins, "quick", seed() + 7, 150 if tier == "quick" else 2000)
     results, info = pfam.run(progs, prun.check_idempotent, only)
     krs, kinfo = kcollect.run("C19", tier, only)
     results += krs
